@@ -270,6 +270,32 @@ Proof.
 Qed.
 Print Assumptions C09_builderbid_serves_winner_or_no_bid.
 
+(* BuilderBid calls made LATER for the auction's slot / parent / proposer -- any number of them, at
+   any instants, with the relays answering ANYTHING by then ([nows] is arbitrary: bids that were not
+   there, or not eligible, while the auction ran) -- each answer the auction's winner, or "no bid"
+   when the auction had no winner, and ask no relay: a bid that turns up after the auction has closed
+   never reaches the beacon node, and "no winner" stays "no winner" (local payload) *)
+Theorem C09_later_builderbid_calls_serve_the_auction_result :
+  forall cfgs s rs ord nows,
+    arrival_order s rs ord -> rs <> [] ->
+    late_queries cfgs (auction_cache rs (result_of cfgs s ord)) nows
+    = map (fun _ => (option_map (fun w => b_uid (p_bid w)) (st_win (result_of cfgs s ord)), false)) nows.
+Proof. exact late_queries_after_auction. Qed.
+Print Assumptions C09_later_builderbid_calls_serve_the_auction_result.
+
+(* the cache entry alone decides: a stored winner or dummy is answered as it is and stays *)
+Theorem C09_later_builderbid_calls_answer_from_the_entry :
+  forall cfgs c nows, c <> CNothing ->
+    late_queries cfgs c nows = map (fun _ => (serve_cached c, false)) nows.
+Proof. intros cfgs c nows Hc. apply late_queries_entry. exact Hc. Qed.
+Print Assumptions C09_later_builderbid_calls_answer_from_the_entry.
+
+(* no relay configured, during the auction and later: nobody is asked, every answer is "no bid" *)
+Theorem C09_later_builderbid_calls_no_relays :
+  forall cfgs ss, late_queries cfgs CNothing (map (fun s => (s, [])) ss) = map (fun _ => (None, false)) ss.
+Proof. exact late_queries_no_relays. Qed.
+Print Assumptions C09_later_builderbid_calls_no_relays.
+
 (* ------------------------------------------------------------------------------------------- *)
 (* The orders used by the model and by the check are arrival orders, so all of the above speaks
    about [strategy_result] and about every candidate order of [Check.C09.agree]. *)
@@ -346,7 +372,10 @@ Theorem C09_P_b_sound :
     /\ (c_has_results c = true ->
         obs_winner_is_max (c_cfgs c) P (c_win c) /\ obs_providers_ok P (c_win c) (c_providers c)
         /\ (forall j, In j (c_providers c) -> In j (c_allp c)))
-    /\ (c_mode c <> MStrategy -> Forall (obs_served_ok (c_cfgs c) P) (c_served c)).
+    /\ (c_mode c <> MStrategy -> Forall (obs_served_ok (c_cfgs c) P) (c_served c))
+    /\ (c_mode c <> MStrategy ->
+        Forall (obs_served_ok (c_cfgs c) P) (c_late_served c)
+        /\ forall o, auction_outcome c = Some o -> Forall (eq o) (c_late_served c)).
 Proof. exact P_b_sound. Qed.
 Print Assumptions C09_P_b_sound.
 
@@ -405,3 +434,15 @@ Example C09_ex_no_winner :
   st_win (strategy_result [] (Best 500) rs) = None
   /\ served MAuction rs (strategy_result [] (Best 500) rs) = [None].
 Proof. vm_compute. split; reflexivity. Qed.
+
+(* an auction without winner, then two later calls while the relay has a fine bid: still "no bid",
+   nobody asked; with a winner, later better bids do not replace it *)
+Example C09_ex_later_calls :
+  let rs := [ ex_relay 0 10%Z (wit_bid 1 4 1 3) ] in
+  let rs_later := [ ex_relay 0 10%Z (wit_bid 501 900 1 8) ] in
+  late_queries [] (auction_cache rs (strategy_result [] (Best 500) rs)) [(Best 500, rs_later); (Best 500, rs_later)]
+  = [(None, false); (None, false)]
+  /\ late_queries [] (auction_cache ex_rs (strategy_result [] (Best 500) ex_rs)) [(Best 500, rs_later)]
+     = [(Some 1, false)]
+  /\ late_queries [] CNothing [(Best 500, rs_later); (Best 500, rs)] = [(Some 501, true); (Some 501, false)].
+Proof. vm_compute. repeat split. Qed.
